@@ -27,6 +27,8 @@ theorem run_pay (cfg : Cfg) (script : List PEntry) (evs : List Ev) : Gpay (run c
   letI : EnvHyp := ⟨False⟩; exact (run_top0 cfg script evs).1.pay
 theorem run_gr (cfg : Cfg) (script : List PEntry) (evs : List Ev) : Ggr cfg (run cfg script evs) := by
   letI : EnvHyp := ⟨False⟩; exact (run_top0 cfg script evs).1.gr
+theorem run_halt (cfg : Cfg) (script : List PEntry) (evs : List Ev) : Ghalt (run cfg script evs) := by
+  letI : EnvHyp := ⟨False⟩; exact (run_top0 cfg script evs).1.halt
 theorem run_fo (cfg : Cfg) (script : List PEntry) (evs : List Ev) : Gfo (run cfg script evs) := by
   letI : EnvHyp := ⟨False⟩; exact (run_top0 cfg script evs).1.fo
 
